@@ -464,6 +464,7 @@ func (s *storage) createTable(archetype *archetype, relations []relationID) *tab
 	if id, ok := archetype.GetFreeTable(); ok {
 		newTableID = id
 		s.tables[newTableID].Recycle(targets, relations)
+		verifProbe(verifProbeTableRecycled)
 		recycled = true
 	} else {
 		newTableID = tableID(len(s.tables))
@@ -527,9 +528,11 @@ func (s *storage) cleanupArchetypes(target Entity) {
 				}
 				s.slices.relations = allRelations[:0]
 				s.moveEntities(table, newTable, uint32(table.Len()))
+				verifProbe(verifProbeChildrenMoved)
 			}
 			archetype.FreeTable(table)
 			s.cache.removeTable(table)
+			verifProbe(verifProbeTableFreedCleanup)
 
 			newRelations = newRelations[:0]
 		}
@@ -705,6 +708,7 @@ func (s *storage) Shrink(stopAfter time.Duration) bool {
 	var tableIdx int
 	anyFound := false
 	for tableIdx = range s.tables {
+		start = verifSkew(start)
 		table := &s.tables[tableIdx]
 
 		if !table.HasRelations() {
@@ -717,6 +721,7 @@ func (s *storage) Shrink(stopAfter time.Duration) bool {
 			}
 			if !table.isFree && table.Len() == 0 {
 				s.archetypes[table.archetype].FreeTable(table)
+				verifProbe(verifProbeTableFreedShrink)
 				anyFound = true
 			}
 		}
